@@ -27,3 +27,10 @@ Definition qform (n : nat) (S : list (list R)) (w : nat -> R) : R :=
 Definition psd (n : nat) (S : list (list R)) : Prop := forall w : nat -> R, 0 <= qform n S w.
 Definition identity_matrix (n : nat) : list (list R) :=
   map (fun i => map (fun j => if Nat.eqb i j then 1 else 0) (seq 0 n)) (seq 0 n).
+
+(* number of positions at which two lists differ (`neqb` is the element type's `!=`) *)
+Fixpoint diff_count {A} (neqb : A -> A -> bool) (x y : list A) : nat :=
+  match x, y with
+  | a :: x', b :: y' => (if neqb a b then 1 else 0) + diff_count neqb x' y'
+  | _, _ => 0
+  end.
